@@ -290,7 +290,7 @@ func toReal(a *Term) *Term {
 	if a.IsConst() {
 		return mkReal(new(big.Rat).SetInt(a.iv))
 	}
-	return &Term{op: "to_real", sort: SReal, args: []*Term{a}}
+	return &Term{op: "to_real", sort: SReal, args: []*Term{a}, lo: a.lo, hi: a.hi}
 }
 
 func tEq(a, b *Term) *Term {
@@ -514,6 +514,9 @@ func tDivE(a, b *Term) *Term {
 		_ = m
 		return mkInt(q)
 	}
+	if x, _, ok := splitMulAdd(a, b); ok {
+		return x
+	}
 	t := &Term{op: "div", sort: SInt, args: []*Term{a, b}}
 	if b.IsConst() && b.iv.Sign() > 0 && a.lo != nil && a.hi != nil {
 		t.lo = new(big.Int).Div(a.lo, b.iv) // big.Int Div is Euclidean
@@ -525,6 +528,9 @@ func tDivE(a, b *Term) *Term {
 func tModE(a, b *Term) *Term {
 	if a.IsConst() && b.IsConst() && b.iv.Sign() != 0 {
 		return mkInt(new(big.Int).Mod(a.iv, b.iv))
+	}
+	if _, y, ok := splitMulAdd(a, b); ok {
+		return y
 	}
 	t := &Term{op: "mod", sort: SInt, args: []*Term{a, b}}
 	if b.IsConst() && b.iv.Sign() != 0 {
@@ -614,7 +620,38 @@ func rArith(op string, a, b *Term) *Term {
 		// multiply by reciprocal keeps things linear
 		return rArith("*", a, mkReal(new(big.Rat).Inv(b.rv)))
 	}
-	return &Term{op: op, sort: SReal, args: []*Term{a, b}}
+	r := &Term{op: op, sort: SReal, args: []*Term{a, b}}
+	switch op {
+	case "+":
+		r.lo, r.hi = addB(realLo(a), realLo(b)), addB(realHi(a), realHi(b))
+	case "-":
+		r.lo, r.hi = subB(realLo(a), realHi(b)), subB(realHi(a), realLo(b))
+	}
+	return r
+}
+
+// conservative integer bounds of a real-sorted term (nil = unknown)
+func realLo(t *Term) *big.Int {
+	if t.IsConst() && t.sort == SReal {
+		return new(big.Int).Div(t.rv.Num(), t.rv.Denom())
+	}
+	if t.op == "to_real" {
+		return t.args[0].lo
+	}
+	return t.lo
+}
+func realHi(t *Term) *big.Int {
+	if t.IsConst() && t.sort == SReal {
+		f := new(big.Int).Div(t.rv.Num(), t.rv.Denom())
+		if !t.rv.IsInt() {
+			f.Add(f, big.NewInt(1))
+		}
+		return f
+	}
+	if t.op == "to_real" {
+		return t.args[0].hi
+	}
+	return t.hi
 }
 
 var tNaN = &Term{op: "nan", sort: SReal}
@@ -744,6 +781,9 @@ func tWrap(t *Term, bits uint, signed bool) *Term {
 	if t.within(lo, hi) {
 		return t
 	}
+	if t.sort != SInt {
+		panic(pathAbort{"unsupported", "wrap-around of a relaxed (real-sorted) integer whose range is not known"})
+	}
 	var w *Term
 	if signed {
 		w = tSub(tModE(tAdd(t, mkInt(pow2(bits-1))), mkInt(pow2(bits))), mkInt(pow2(bits-1)))
@@ -762,3 +802,23 @@ func tWrap(t *Term, bits uint, signed bool) *Term {
 func fmtModelVal(s string) string { return s }
 
 var _ = fmt.Sprintf
+
+// splitMulAdd recognises a = c*x + y with 0 <= y < c for the constant divisor c, so that
+// a div c = x and a mod c = y without involving the solver.
+func splitMulAdd(a, c *Term) (x, y *Term, ok bool) {
+	if !c.IsConst() || c.iv.Sign() <= 0 || a.op != "+" || len(a.args) != 2 {
+		return nil, nil, false
+	}
+	try := func(p, q *Term) (*Term, *Term, bool) {
+		if p.op == "*" && len(p.args) == 2 && p.args[0].IsConst() && p.args[0].iv.Cmp(c.iv) == 0 {
+			if q.lo != nil && q.hi != nil && q.lo.Sign() >= 0 && q.hi.Cmp(c.iv) < 0 {
+				return p.args[1], q, true
+			}
+		}
+		return nil, nil, false
+	}
+	if x, y, ok := try(a.args[0], a.args[1]); ok {
+		return x, y, true
+	}
+	return try(a.args[1], a.args[0])
+}
